@@ -169,6 +169,22 @@ PROPS = {
         "require": {"sets": 1000, "sets.compactable": 500, "compact.cells_in": 5000000, "uncompact.short_capacity": 500, "uncompact.coarser_target": 300},
         "assumptions": ["reference compaction is the canonical form described by the statement (no ancestor pairs, no complete sibling set)"],
     },
+    "C07": {
+        "sources": KIT + ["vf_poly.c", "mon_C07.c"],
+        "phases": simple("mon_C07.c"),
+        "level": "exploration",
+        "level_text": "Thousands of generated well-formed polygons (star-shaped loops of 3-40 vertices, concave, needles down to 1:500, 0.05-30 cell widths, 0-3 disjoint interior holes of both orientations, a third "
+                      "placed on the antimeridian or around a pentagon, both hemispheres, all 16 resolutions) are filled by polygonToCells and polygonToCellsExperimental(CENTER); every candidate cell (from latLngToCell on a "
+                      "grid over the grown bounding box, plus the outputs) is judged by an independent long-double planar containment test of its centre: unambiguous inside => returned by both, unambiguous outside => by "
+                      "neither, no duplicates, outputs within the exact-size buffers of the two max-size functions (ASan).",
+        "level_note": "Trusted base: planar crossing-number oracle on unrolled coordinates; centres within max(1e-11, 64 ulp) of an edge are ambiguous and not judged. 'Well-formed' is read as in DESIGN.md §5 C07 (whole loop spans < 180 degrees of longitude).",
+        "technique": "runtime monitoring: independent point-in-polygon oracle over an independently enumerated candidate set, differential between the two fill algorithms, under ASan/UBSan",
+        "evaluations": ["polygons"],
+        "rule": "a case is one generated polygon (from a 64-bit seed) filled by both algorithms; every candidate cell is judged. Non-trivial = polygon for which at least one algorithm returns a cell; distinct by seed. 'cells.judged' counts candidate cells.",
+        "require": {"polygons": 1500, "cells.inside": 100000, "cells.outside": 100000, "polygons.antimeridian": 200, "polygons.with_holes": 300, "polygons.needle": 300, "polygons.near_pentagon": 100,
+                    "polygons.100plus_cells": 100, "polygons.empty_result": 50},
+        "assumptions": ["containment is in latitude/longitude space with straight edges, as the statement says", "loops spanning >= 180 degrees of longitude are outside the judged domain"],
+    },
     "C08": {
         "sources": KIT + ["mon_C08.c"],
         "phases": simple("mon_C08.c"),
